@@ -362,12 +362,15 @@ func runC03(rc *fw.RunCtx) {
 		// primitive or a slow OS call
 		armSiteFault(s, f, "cancel", func() { rc.Hit("fault_cancel_at_site"); cancel1() })
 	}
-	if kind == 3 && sos.YieldFn != nil && f.Chance(1, 2) {
+	if kind == 3 && sos.YieldFn == nil && f.Chance(1, 2) {
+		sos.YieldFn = s.Yield // OS-touching programs mostly meet a slow disk
+	}
+	if kind == 3 && sos.YieldFn != nil && f.Chance(3, 4) {
 		// OS-touching program on a slow disk: the cancel lands while the script
 		// sits inside the device's Close (or Write) of a file, which is when the
 		// file's own cancellation watcher goes for the same file
 		site := []string{"simos.File.Close", "simos.File.Close", "simos.File.Write", "simos.File.Read"}[f.Intn(4)]
-		s.AtSite(site, 1+f.Intn(3), "cancel", func() { rc.Hit("fault_cancel_inside_file_op"); cancel1() })
+		s.AtSite(site, 1+f.Intn(2)*f.Intn(3), "cancel", func() { rc.Hit("fault_cancel_inside_file_op"); cancel1() })
 	}
 
 	// ---- API calls, each guarded
